@@ -4,6 +4,8 @@ import (
 	"bytes"
 	"encoding/json"
 	"fmt"
+	"math"
+	"math/big"
 	"strconv"
 	"strings"
 	"sync"
@@ -305,6 +307,7 @@ func checkC13(c *Ctx) {
 	c.Assume("';' replaces only newlines that the spec classifies as separating two statements (innermost bracket is a statement block, left token can end a statement, right token cannot continue an expression and is not '}' ';' else); other original newlines are treated as blanks")
 	c.Assume("a string literal cannot contain its own quote (no escape exists); quotes are swapped only where the content lacks the other quote; a regex literal cannot start with '=' (\"/=\" is one token)")
 	c.Assume("brace classification (block / object literal / match body) is by the left neighbour; a '{' at the start of a statement is a block only directly after '{', '}' or ';' (the corpus has no bare block after a newline and no expression statement starting with '{')")
+	c.Assume("numeric literal values: the decimal reading is rendered as the nearest double (math/big) in print's format (shortest positional decimal); spellings like 0x10 or 1e5 are not numeric literals (the lexer splits them) and are not in the value family; fractional or out-of-range indices are not used")
 	c.Assume("an invalid escape is compared by outcome class only (runtime error); object keys written as strings are not escape-processed and are not compared")
 	c.Assume("corpus programs never print or iterate objects with more than one key (map order is C10's business); the corpus text itself is run three times and must be deterministic")
 	pool := c.Pool()
@@ -392,6 +395,51 @@ func checkC13(c *Ctx) {
 	stS.Wait()
 
 	phase("strings")
+
+	// ---- (2b) numeric literals: the value is the decimal reading
+	numInt, numFrac := 3, 2
+	if thorough {
+		numInt, numFrac = 4, 3
+	}
+	type numVec struct {
+		Lit   []string `json:"lit"`
+		IP    []string `json:"ip"`
+		FP    []string `json:"fp"`
+		Canon []string `json:"canon"`
+	}
+	nnum := 0
+	stN := pool.NewStream(func(j *Job, r Result) {
+		if !c13Conclusive(r) {
+			return
+		}
+		parts := strings.SplitN(j.Tag, "\x00", 3) // form, literal, expected stdout
+		if r.Class != "ok" || string(r.Stdout) != parts[2] {
+			c.Violation("number-value-"+parts[0], map[string]any{"form": parts[0], "literal": parts[1], "program": string(j.Prog),
+				"expected_stdout": parts[2], "got_class": r.Class, "got_stdout": string(r.Stdout), "got_msg": r.ErrMsg})
+			return
+		}
+		c.Case("num:"+string(j.Prog), parts[1] != strings.TrimSuffix(parts[2], "\n"))
+		nnum++
+		if nnum == 2501 {
+			c.Sample(map[string]any{"family": "number-value", "form": parts[0], "literal": parts[1], "program": string(j.Prog), "expected_stdout": parts[2]})
+		}
+	})
+	c.TLC(TLCOpt{Module: "MC_LexNum", Workers: 8, Heap: "6g",
+		Cfg: cfgText("INIT Init", "NEXT Next", "CONSTANTS", fmt.Sprintf("MaxInt = %d", numInt), fmt.Sprintf("MaxFrac = %d", numFrac),
+			"INVARIANT Laws", "INVARIANT Vec", "CHECK_DEADLOCK FALSE"),
+		OnVec: func(raw []byte) {
+			var v numVec
+			VecDecode(raw, &v)
+			for _, f := range c13NumForms(string(symsToBytes(v.Lit)), string(symsToBytes(v.Canon))) {
+				j := Job{Kind: "run", Prog: []byte(f.prog), Tag: f.name + "\x00" + string(symsToBytes(v.Lit)) + "\x00" + f.out}
+				if f.input != "" {
+					j.Files = []FileIn{{Name: "<test1>", Data: []byte(f.input)}}
+				}
+				stN.Submit(j)
+			}
+		}})
+	stN.Wait()
+	phase("numbers")
 
 	// ---- (3) program level
 	progs := c13Corpus()
@@ -639,9 +687,10 @@ func checkC13(c *Ctx) {
 	c.Set("exhaustive", true)
 	c.Set("rule", "token level: every text up to MaxLen over {a 1 - . + = SP LF \" '} and {a # \" ' LF SP 1 ;}, every ordered pair (thorough: triple) of universe tokens x gap kind x quote; "+
 		"non-trivial = at least two tokens (or an error after a token); strings: every body up to StrLen over {a \\ n t z ' \" SP LF}, non-trivial = contains a backslash; "+
+		"numbers: every spelling I[.F] with I up to NumInt digits over {0 1 7 8}, F up to NumFrac digits, plus a catalogue of long/special spellings, each in ~16 program positions, non-trivial = the literal is not its own printed form; "+
 		"programs: 7 systematic layouts per corpus program (exhaustive) + LayoutsPerProgram random permitted layouts chosen by TLC -simulate (seed = 1000*seed+shard), non-trivial = text differs from the corpus text; distinct by text")
 	c.Set("checker_cmd", "tlc MC_Lex / MC_LexPair / MC_LexStr / MC_LexProg (BFS + -simulate); replay through Lexer.Next/Regex and lang.EvalProgram")
-	c.Set("bounds", map[string]int{"MaxLen": runs[0].maxLen, "MaxArity": arities[len(arities)-1], "StrLen": strLen, "CorpusPrograms": len(progs),
+	c.Set("bounds", map[string]int{"MaxLen": runs[0].maxLen, "MaxArity": arities[len(arities)-1], "StrLen": strLen, "NumInt": numInt, "NumFrac": numFrac, "CorpusPrograms": len(progs),
 		"LayoutsPerProgram": perProg + 7, "SimShards": shards})
 	for _, k := range []string{"none", "sp", "tab", "cr", "nl", "cmt", "crnl", "semi", "cmteof"} {
 		if kindSeen[k] == 0 {
@@ -655,6 +704,69 @@ func checkC13(c *Ctx) {
 	c.Set("semicolons_for_newlines", nsemi)
 	c.Set("quotes_swapped", nswap)
 	c.Set("statement_separating_newlines_in_corpus", nseps)
+}
+
+// ---- numeric literal values
+
+// c13Nearest: the double nearest to an exact decimal (math/big, independent of
+// the implementation's number parsing).
+func c13Nearest(dec string) float64 {
+	r, ok := new(big.Rat).SetString(dec)
+	if !ok {
+		infra("bad decimal %q", dec)
+	}
+	f, _ := r.Float64()
+	return f
+}
+
+// c13Add: IEEE addition of two doubles = the double nearest to the exact sum.
+func c13Add(a, b float64) float64 {
+	s := new(big.Rat).Add(new(big.Rat).SetFloat64(a), new(big.Rat).SetFloat64(b))
+	f, _ := s.Float64()
+	return f
+}
+
+// jqawk's print format for numbers: shortest positional decimal that reads back as the double
+func c13Num(f float64) string { return strconv.FormatFloat(f, 'f', -1, 64) }
+
+type c13NumForm struct{ name, prog, input, out string }
+
+// c13NumForms writes the literal lit (whose value is the exact decimal canon)
+// in every position a numeric literal occurs in, with the output the decimal
+// reading prescribes.
+func c13NumForms(lit, canon string) []c13NumForm {
+	v := c13Nearest(canon)
+	s := c13Num(v)
+	fs := []c13NumForm{
+		{"print", "BEGIN { print " + lit + " }", "", s + "\n"},
+		{"print-list", "BEGIN { print 'a', " + lit + ", " + lit + " }", "", "a " + s + " " + s + "\n"},
+		{"plus-one", "BEGIN { print " + lit + " + 1, 1 + " + lit + " }", "", c13Num(c13Add(v, 1)) + " " + c13Num(c13Add(1, v)) + "\n"},
+		{"identity-ops", "BEGIN { print " + lit + " * 1, " + lit + " - 0, " + lit + " / 1 }", "", s + " " + s + " " + s + "\n"},
+		{"equals-canonical", "BEGIN { print " + lit + " == " + canon + ", " + canon + " == " + lit + ", " + lit + " != " + canon + " }", "", "true true false\n"},
+		{"order-canonical", "BEGIN { print " + lit + " > " + canon + ", " + lit + " < " + canon + ", " + lit + " >= " + canon + ", " + lit + " <= " + canon + " }", "", "false false true true\n"},
+		{"assign", "BEGIN { x = " + lit + "\n  print x\n  y = 0; y += " + lit + "; print y }", "", s + "\n" + s + "\n"},
+		{"containers", "BEGIN { print [" + lit + "], { a: " + lit + " }, [[" + lit + ", 1]][0][0] }", "", "[" + s + "] {\"a\": " + s + "} " + s + "\n"},
+		{"call", "function f(a) { return a }\nfunction g() { return " + lit + " }\nBEGIN { print f(" + lit + "), g() }", "", s + " " + s + "\n"},
+		{"match-case", "BEGIN { print match (" + canon + ") { " + lit + " => 'hit', _ => 'miss' }, match (" + lit + ") { " + canon + " => 'hit', _ => 'miss' } }", "", "hit hit\n"},
+		{"pattern", lit + " == " + canon + " { print 'y', " + lit + " }", "[1]", "y " + s + "\n"},
+		{"condition", "BEGIN { if (" + lit + " == " + canon + ") print 'same'; else print 'different' }", "", "same\n"},
+		{"printf", "BEGIN { printf('%f|%s\\n', " + lit + ", 's') }", "", s + "|s\n"},
+		{"method", "BEGIN { print (" + lit + ").floor(), (" + lit + ").ceil() }", "", c13Num(math.Floor(v)) + " " + c13Num(math.Ceil(v)) + "\n"},
+		{"tight", "BEGIN{print(" + lit + ")+" + lit + "}", "", c13Num(c13Add(v, v)) + "\n"},
+	}
+	if v != 0 {
+		fs = append(fs, c13NumForm{"negated", "BEGIN { print -" + lit + ", 0 - " + lit + " }", "", c13Num(-v) + " " + c13Num(-v) + "\n"})
+	}
+	if v == math.Trunc(v) && v >= 0 && v <= 12 {
+		fs = append(fs,
+			c13NumForm{"index", "BEGIN { x = [0, 1, 2, 3, 4, 5, 6, 7, 8, 9, 10, 11, 12]; print x[" + lit + "] }", "", s + "\n"},
+			c13NumForm{"index-input", "{ print $[" + lit + "] }", "[[0, 1, 2, 3, 4, 5, 6, 7, 8, 9, 10, 11, 12]]", s + "\n"},
+			c13NumForm{"index-assign", "BEGIN { x[" + lit + "] = 'v'; print x.length() }", "", c13Num(v+1) + "\n"})
+	}
+	if v == math.Trunc(v) && v >= 0 && v < 1e6 {
+		fs = append(fs, c13NumForm{"for-bounds", "BEGIN { for (i = " + lit + "; i < " + lit + " + 2; i++) print i }", "", s + "\n" + c13Num(v+1) + "\n"})
+	}
+	return fs
 }
 
 var c13Panic any
